@@ -25,7 +25,9 @@ func init() {
 	})
 }
 
-var c14Names = []string{"foo", "bar", "controller", "x", "meta", "tags", "created", "émoji", "with space", "a.b", "UPPER", "n1", "alsoKnownAs2", "verificationMethod", "authentication", "@context", "type"}
+var c14Names = []string{"foo", "bar", "controller", "x", "meta", "tags", "created", "émoji", "with space", "a.b", "UPPER", "n1", "alsoKnownAs2", "verificationMethod", "authentication", "@context", "type",
+	// names that differ from the reserved ones by letter case only are ordinary further members
+	"ID", "Id", "iD", "identifier", "ids", "PublicKey", "Service", "AlsoKnownAs", "alsoknownas", "Publickey", "SERVICE"}
 
 func c14Doc(r *fw.Rand) map[string]interface{} {
 	doc := map[string]interface{}{}
